@@ -536,6 +536,23 @@ def mut_path(ast, pick, fresh):
     return _apply(ast, lambda n: n["k"] in ("cmp", "exists"), fn, pick)
 
 
+def mut_path_length(ast, pick, fresh):
+    """The same path with its last step dropped, or with one more step (key or index) appended: a:z[0] / a:z,
+    a:n.k / a:n, a:x / a:x.q -- in the universe the shorter / longer path addresses a container or nothing."""
+    def fn(n):
+        steps = list(n["path"]["steps"])
+        r = pick(3)
+        if r == 0 and len(steps) > 1:
+            steps = steps[:-1]
+        elif r == 1:
+            steps = steps + [{"s": "idx", "i": (0, 1, "*")[pick(3)]}]
+        else:
+            steps = steps + [{"s": "key", "n": ("q", "k", "name")[pick(3)], "q": False}]
+        n["path"] = {"t": n["path"]["t"], "steps": steps}
+        return n
+    return _apply(ast, lambda n: n["k"] == "cmp", fn, pick)
+
+
 def mut_qualifier(ast, pick, fresh):
     def fn(n):
         q = dict(n["q"])
@@ -598,8 +615,9 @@ MUTATIONS = {
     "constant": mut_constant, "operator": mut_operator, "not": mut_not, "path": mut_path, "qualifier": mut_qualifier,
     "swap-followedby": mut_swap_followedby, "duplicate-and-operand": mut_duplicate_and_operand, "and-or": mut_and_or,
     "absorb-wrong": mut_absorb_wrong, "qualify": mut_qualify, "special-respell": mut_special_respell, "set-item": mut_set_item,
+    "path-length": mut_path_length,
 }
-MUTATION_NAMES = ["constant", "constant", "operator", "not", "not", "not", "path", "qualifier", "qualifier", "swap-followedby", "swap-followedby",
+MUTATION_NAMES = ["path-length", "path-length", "constant", "constant", "operator", "not", "not", "not", "path", "qualifier", "qualifier", "swap-followedby", "swap-followedby",
                   "duplicate-and-operand", "and-or", "absorb-wrong", "qualify", "special-respell", "special-respell", "special-respell", "set-item", "set-item", "set-item", "set-item"]
 
 
